@@ -68,7 +68,29 @@ fn run_line(line: &str, limit: std::time::Duration) -> String {
     }
 }
 
+/// `seq <op> a1 a2 ; b1 b2 ; ...`: the calls `<op> a1 a2`, `<op> b1 b2`, ... one after another on THIS thread
+/// (hidden per-thread or global state between calls would show); results joined by " | "
+fn seq(t: &[&str]) -> Option<Out> {
+    let op = *t.get(1)?;
+    let mut outs = vec![];
+    for g in t[2..].split(|x| *x == ";") {
+        let mut call = vec![op];
+        call.extend_from_slice(g);
+        let r = catch_unwind(AssertUnwindSafe(|| dispatch(&call)));
+        outs.push(match r {
+            Ok(Some(Out::Ok(s))) => if s.is_empty() { "OK".to_string() } else { s },
+            Ok(Some(Out::Err(k))) => format!("ERR:{}", k.replace(' ', "_")),
+            Ok(None) => return None,
+            Err(_) => "PANIC".to_string(),
+        });
+    }
+    Some(Out::Ok(outs.join(" | ")))
+}
+
 fn dispatch(t: &[&str]) -> Option<Out> {
+    if t[0] == "seq" {
+        return seq(t);
+    }
     if let Some(o) = sym::dispatch(t) {
         return Some(o);
     }
